@@ -23,6 +23,7 @@ def _c15_case(c):
             return out
         return {"op": "regpage", "kind": p[1], "items": _items(p[2]), "cap": int(p[3]), "path": unhex(p[4]), "query": _kvs(p[5]),
                 "cursorkey": unhex(p[11]), "cursorsalt": unhex(p[12]),
+                "hidden": [] if p[13] == "_" else [unhex(x) for x in p[13].split(",")],
                 "dec": {"M": int(p[6]), "Extra": _kvs(p[7]) or None, "Filter": p[8] == "1", "FHdr": unhex(p[9]), "FAnn": unhex(p[10])}}
     if p[0] == "P":
         ct = unhex(p[4])
@@ -183,10 +184,12 @@ def _vm_goal(case, out):
         return ("let w := referrers_wrap %s %s %s %s in (map u_path (w_reqs w), w_pages w, w_out w, w_fell_back w, w_state w, vm_qsames (map u_query (w_reqs w)) %s)\n  = (%s, %s, %s, %s, %s, true)"
                 % (state[st], _vm_bool(cbu), loop, ts, qs, ps, _vm_pages(o[4], int(o[3])), o[6], _vm_bool(o[8]), state[o[10]]))
     if k == "S":
-        kd, its, cap, path, q, m, extra, flt, fh, fa, ck, salt = p[1:13]
+        kd, its, cap, path, q, m, extra, flt, fh, fa, ck, salt, hidden = p[1:14]
+        hid = _vm_list([] if hidden == "_" else [_vm_str(x) for x in hidden.split(",")], "str")
+        vis = "(fun it : item => negb (existsb (str_eqb (fst it)) %s))" % hid
         d = "(mkDec %s %s %s %s %s 0 0)" % (m, _vm_query(extra), _vm_bool(flt), _vm_str(fh), _vm_str(fa))
         cu = "CLast" if ck == "-" else "(CToken %s %s)" % (_vm_str(ck), _vm_str(salt))
-        call = "(reg_page %s %s %s %s (mkUrl %s %s) %s)" % (_vm_kind(kd), cu, _vm_items(its), cap, _vm_str(path), _vm_query(q), d)
+        call = "(reg_page %s %s %s %s %s (mkUrl %s %s) %s)" % (_vm_kind(kd), cu, vis, _vm_items(its), cap, _vm_str(path), _vm_query(q), d)
         more = o[1] == "1"
         qchk = "vm_qsame (snd r) %s" % _vm_expq(o[2]) if more else "true"
         return "let r := %s in (fst (fst r), snd (fst r), %s) = (%s, %s, true)" % (call, qchk, _vm_items(o[0]), _vm_bool(o[1]))
